@@ -111,10 +111,28 @@ pub mod env {
         let (mut map, dropped) = redis_sim::streaming::compaction::verif_compact_fold(d0, d1, d2, now, std::time::Duration::ZERO);
         let surv = map.remove("k");
         let survives = surv.is_some();
-        let after = match (outside, surv) {
-            (Some(o), Some(s)) => { let m = o.value.merge(&s.value); std::mem::forget((o, s)); Some(m) }
+        // every input is an LWW value without a vector clock; a survivor of another shape is reported. The survivor is
+        // REBUILT from its parts with a literal `CrdtValue::Lww`: a value that comes out of the map has a discriminant
+        // CBMC no longer knows, and the merge below would otherwise be explored under every CRDT variant.
+        let mut odd = false;
+        let surv_v: Option<ReplicatedValue> = match surv {
+            Some(s) => {
+                let redis_sim::replication::state::ReplicationDelta { key, value, source_replica } = s;
+                let ReplicatedValue { crdt, vector_clock, expiry_ms, timestamp, replication_factor } = value;
+                let r = match (crdt, vector_clock) {
+                    (redis_sim::replication::state::CrdtValue::Lww(l), None) => Some(ReplicatedValue { crdt: redis_sim::replication::state::CrdtValue::Lww(l), vector_clock: None, expiry_ms, timestamp, replication_factor }),
+                    (c, v) => { odd = true; std::mem::forget((c, v)); None }
+                };
+                std::mem::forget(key);
+                r
+            }
+            None => None,
+        };
+        if odd { std::mem::forget((map, surv_v, outside, before)); return (None, None, false, u64::MAX); }
+        let after = match (outside, surv_v) {
+            (Some(o), Some(s)) => { let m = o.value.merge(&s); std::mem::forget((o, s)); Some(m) }
             (Some(o), None) => Some(o.value),
-            (None, Some(s)) => Some(s.value),
+            (None, Some(s)) => Some(s),
             (None, None) => None,
         };
         std::mem::forget(map);
@@ -269,6 +287,7 @@ macro_rules! registry {
         #[kani::stub(parking_lot::raw_mutex::RawMutex::unlock_slow, crate::stubs::pl_unlock_slow)]
         #[kani::stub(redis_sim::replication::hash_ring::HashRing::hash_virtual_node, crate::stubs::ring_vnode)]
         #[kani::stub(redis_sim::replication::hash_ring::HashRing::hash_key, crate::stubs::ring_key)]
+        #[kani::stub(alloc::alloc::realloc, crate::stubs::no_realloc)]
         pub fn $name() { $body }
     };
     (@one $name:ident, $unwind:literal, clock, $body:expr) => {
